@@ -30,7 +30,7 @@ M = [
   "backward extension removes the wrong pending pair"),
  ("c12_chain_ambiguous_takes_first", ["C12"], "src/common/indices.rs",
   "    if candidates.len() == 1 {", "    if !candidates.is_empty() {",
-  "branching no longer stops a chain (still exactly-once; expected to stay silent)"),
+  "branching no longer stops a chain (still exactly-once on branching input, the only place where it differs): expected silent"),
  ("c12_cylinder_winding", ["C12"], "src/geom3/mesh.rs",
   "            faces.push([(i * 2) as u32, (k * 2 + 1) as u32, (i * 2 + 1) as u32]);",
   "            faces.push([(i * 2) as u32, (i * 2 + 1) as u32, (k * 2 + 1) as u32]);",
@@ -88,7 +88,7 @@ M = [
   "harmless clamp: expected silent"),
  ("c15_nearest_bound_next_up", ["C15"], "src/common/kd_tree.rs",
   "        let bound = (last.distance * (1.0 + 1e-12)).max(f64::MIN_POSITIVE);", "        let bound = last.distance.next_up();",
-  "re-introduces the one-ulp bound of the first k-nearest repair: neighbours tied at the k-th distance are lost when kiddo's chunk and remainder paths round differently"),
+  "re-introduces the one-ulp bound of the first k-nearest repair: neighbours tied at the k-th distance are lost when kiddo prunes with its incrementally rounded plane distance; about 1 in 40 000 thorough runs, reached by the thorough tier only"),
  ("c15_nearest_bound_zero_distance", ["C15"], "src/common/kd_tree.rs",
   "        let bound = (last.distance * (1.0 + 1e-12)).max(f64::MIN_POSITIVE);", "        let bound = last.distance * (1.0 + 1e-12);",
   "bound collapses to zero when the k-th neighbour is at distance zero"),
@@ -141,7 +141,8 @@ def main():
             open(full, "w").write(src)
         open(os.path.join(OUT, name + ".diff"), "w").write(diff)
         index.append({"name": name, "expected_to_fire": props, "file": path, "note": note,
-                      "expected_silent": "expected silent" in note or "harmless" in note})
+                      "expected_silent": "expected silent" in note or "harmless" in note,
+                      "thorough_only": "thorough tier only" in note})
     json.dump(index, open(os.path.join(OUT, "index.json"), "w"), indent=1)
     print("wrote", len(index), "mutants")
     subprocess.check_call(["git", "-C", REPO, "diff", "--quiet"])
